@@ -97,7 +97,10 @@ PATS = {
     3: ["a*", "?b", "*", "[ab]*", "a\\*", "*_bar", "f1?", "**", "?", "[!a]*", "a[", "x.y", "<*>", "main",
         "foo", "*a*b*", "a?*", "???"],
 }
-MODS = ["", "main", "ma", "mainx", "lib", "libfoo.so", "other", "libfoo.so.1", "m"]
+MODS = ["", "main", "ma", "mainx", "lib", "libfoo.so", "other", "libfoo.so.1", "m", "libc14so", "libc14so.so.7",
+        "libc14file", "libc14file.so.7.1.x"]
+REALLIB = "@REALLIB@"       # replaced by the path of a real shared object (file libc14file.so.7.1, soname libc14so.so.7)
+MODPATHS = ["/usr/bin/main", "main", "/x/libfoo.so.1.2", "/nonexistent/other", REALLIB, REALLIB, "lib"]
 LIBS = ["/usr/bin/main", "main", "/x/libfoo.so.1.2", "dir/", "/a/b/other", "ma", "/main/x"]
 SONAMES = [None, None, "libfoo.so.1", "main", ""]
 
@@ -142,14 +145,32 @@ def gen_pattern_case(rng, i):
     qs = []
     for _ in range(rng.randrange(3, 8)):
         qs.append((rng.choice(LIBS), rng.choice(SONAMES), rng.choice(NAMES)))
-    return {"kind": "pat", "ptype": ptype, "funcs": funcs, "defmod": defmod, "cli": cli, "queries": qs, "tags": tags}
+    mods = [rng.choice(MODPATHS) for _ in range(rng.randrange(1, 4))]
+    return {"kind": "pat", "ptype": ptype, "funcs": funcs, "defmod": defmod, "cli": cli, "queries": qs, "tags": tags,
+            "modpaths": mods}
 
 
 def pat_lines(c):
     ls = ["PAT %d %s %s" % (c["ptype"], hx(c["funcs"]), hx(c["defmod"]))]
     for lib, so, name in c["queries"]:
         ls.append("Q %s %s %s" % (hx(lib), "-" if so is None else (hx(so) if so else "00"), hx(name)))
+    for path in c.get("modpaths", []):
+        ls.append("MOD %s" % hx(path.replace(REALLIB, REALLIB_PATH[0])))
     return ls
+
+
+REALLIB_PATH = ["/nonexistent-c14/libc14file.so.7.1"]
+
+
+def build_reallib(ctx):
+    """a real shared object whose file name and DT_SONAME differ (get_soname reads the file)"""
+    d = os.path.join(ctx.scratch, "elfs")
+    os.makedirs(d, exist_ok=True)
+    src = os.path.join(d, "l.c")
+    open(src, "w").write("int c14_lib_fn(int x) { return x + 1; }\n")
+    lib = os.path.join(d, "libc14file.so.7.1")
+    sh(["gcc", "-shared", "-fPIC", "-Wl,-soname,libc14so.so.7", "-o", lib, src], check=True)
+    REALLIB_PATH[0] = lib
 
 
 class Out:
@@ -182,6 +203,13 @@ def read_pat(out, c):
         bits = [] if t[2] == "-" else [ch == "1" for ch in t[2]]
         res.append((int(t[1]), bits))
     c["qres"] = res
+    mres = []
+    for path in c.get("modpaths", []):
+        t = out.next().split()
+        if t[0] != "MO":
+            raise RuntimeError("unexpected harness line %r" % t)
+        mres.append((path.replace(REALLIB, REALLIB_PATH[0]), None if t[2] == "-" else unhx(t[2]), t[1] == "1"))
+    c["mres"] = mres
 
 
 def oracle_tables(c):
@@ -225,10 +253,11 @@ def c_pcase(c):
     for (lib, so, name), (ret, bits) in zip(c["queries"], c["qres"]):
         qs.append("{| q_lib := %s; q_so := %s; q_name := %s; q_ret := %s; q_bits := [%s] |}" % (
             cb(lib), copt_bytes(so_bytes(so)), cb(name), cz(ret), ";".join(cbool(b) for b in bits)))
+    ms = ["(%s, %s, %s)" % (cb(pth), copt_bytes(so), cbool(r_)) for pth, so, r_ in c.get("mres", [])]
     return ("{| p_ptype := %s; p_funcs := %s; p_defmod := %s; p_cli := %s; p_regok := %s; p_tbl := %s;\n"
-            "   p_items := [%s];\n   p_queries := [%s] |}" % (
+            "   p_items := [%s];\n   p_queries := [%s];\n   p_mods := [%s] |}" % (
                 PT[c["ptype"]], cb(c["funcs"]), cb(c["defmod"]), cli, r, t,
-                ";".join(c_item(i) for i in c["items"]), ";\n     ".join(qs)))
+                ";".join(c_item(i) for i in c["items"]), ";\n     ".join(qs), "; ".join(ms)))
 
 
 # ---------------------------------------------------------------- update cases
@@ -554,7 +583,7 @@ def evaluate(ctx, pcases, ucases, name="cases", fixed=False, fcases=()):
 
 
 def case_json(c):
-    j = {k: v for k, v in c.items() if k not in ("before", "impl", "items", "qres", "tags", "queries", "opts", "cli")}
+    j = {k: v for k, v in c.items() if k not in ("before", "impl", "items", "qres", "mres", "tags", "queries", "opts", "cli")}
     if "before" in c:
         j["before"] = c["before"].hex()
     if c.get("cli") is not None:
@@ -570,6 +599,8 @@ def impl_json(c):
                           "module": i["mod"].decode("latin1")} for i in c["items"]]
         out["answers"] = [[n, r, "".join("1" if b else "0" for b in bits)]
                           for (l, s, n), (r, bits) in zip(c["queries"], c["qres"])]
+        out["match_pattern_module"] = [[pth, so.decode("latin1") if so is not None else None, r]
+                                       for pth, so, r in c.get("mres", [])]
     if "impl" in c:
         i = dict(c["impl"])
         i["after"] = i["after"].hex()
@@ -718,6 +749,7 @@ def run(ctx):
     ucases = [gen_update_case(rng, i) for i in range(ctx.n(260, 3000))]
     # the known-defect class (a page must be added but the next page is occupied) is only visited by the witness
     ucases = [c for c in ucases if not c["fatal_expected"]]
+    build_reallib(ctx)
     elfs = build_elfs(ctx)
     fcases = [gen_find_case(rng, i, elfs) for i in range(ctx.n(120, 1200))]
     wit = detect_variant(ctx, h)
@@ -727,7 +759,9 @@ def run(ctx):
                  tags=["find:" + t for t in set(c["tags"])] + ["find:type=%d" % c["itype"]], size=len(c["window"]))
     for c in pcases:
         ctx.case(key=("pat", c["ptype"], c["funcs"], c["defmod"], tuple(c["queries"])), nontrivial=nontrivial_pat(c),
-                 tags=["pattern:" + t for t in c["tags"]] + ["ptype=%d" % c["ptype"]],
+                 tags=["pattern:" + t for t in c["tags"]] + ["ptype=%d" % c["ptype"]]
+                 + ["pattern:module-%s%s" % ("visited" if r_ else "skipped", "-by-soname" if so else "")
+                    for pth, so, r_ in c.get("mres", [])],
                  sample={"case": case_json(c), "implementation": impl_json(c)} if len(ctx.samples) < 2 and nontrivial_pat(c) else None,
                  size=len(c["funcs"]))
     ns = 0
@@ -774,6 +808,7 @@ def replay(ctx, obj):
         return
     c["queries"] = [(l, s, n) for l, s, n in c.get("queries", [])]
     c["tags"] = []
+    build_reallib(ctx)
     if mode == "find":
         elfs = build_elfs(ctx)
         f = {"kind": "find", "elf": c["elf"], "path": elfs[c["elf"]], "wbase": c["wbase"],
